@@ -74,7 +74,10 @@ Far == { <<[c |-> "skip", target |-> 2], Blob(32763), [c |-> "constu", v |-> B8(
          <<[c |-> "bra", target |-> 3], Blob(40000), [c |-> "op", code |-> 150]>>,
          <<[c |-> "constu", v |-> B8(1)], Blob(32760), [c |-> "bra", target |-> 0]>>,       \* -32768: fits
          <<[c |-> "constu", v |-> B8(1)], Blob(32761), [c |-> "skip", target |-> 0]>>,      \* -32769: too far
-         <<[c |-> "constu", v |-> B8(1)], Blob(32761), [c |-> "skip", target |-> 1]>> }     \* -32768 from op 1: fits
+         <<[c |-> "constu", v |-> B8(1)], Blob(32761), [c |-> "skip", target |-> 1]>>,      \* -32768 from op 1: fits
+         <<Blob(65531)>>,                                 \* 1 + 3 + 65531 = 65535 bytes: fits a 2-byte length
+         <<Blob(65532)>>,                                 \* 65536 bytes: too long for a pre-v5 location list entry
+         <<Blob(40000), Blob(40000)>> }
 
 Calls == CASE Slice = "core" -> Core \cup Branches
            [] Slice = "refs" -> Refs \cup {[c |-> "constu", v |-> B8(32)], [c |-> "skip", target |-> 0], [c |-> "bra", target |-> 2]}
@@ -96,7 +99,7 @@ Next == /\ ~done
 (* a finished sequence is well-formed when every branch target is an index <= Len and not itself *)
 WellFormed == \A i \in DOMAIN cs : cs[i].c \in {"skip", "bra"} => cs[i].target <= Len(cs) /\ cs[i].target # i - 1
 
-MustFail == TooLong(cs, cf.enc) \/ BranchTooFar(cs, cf.enc, NumRes) \/ (cf.ctx = "cfi" /\ HasRef(cs))
+MustFail == TooLong(cs, cf.enc) \/ BranchTooFar(cs, cf.enc, NumRes) \/ TooBigForLocList(cs, cf.enc, NumRes, cf.ctx) \/ (cf.ctx = "cfi" /\ HasRef(cs))
 MayFail  == Forward(cs)
 
 RECURSIVE MeanSeq(_, _, _)
